@@ -12,27 +12,47 @@ PROP = {
         "harness": "c15",
         "header": "From Coq Require Import List String ZArith.\nFrom Exo Require Import Base.Store Base.Util C15.Model.\nImport ListNotations.",
         "case_type": "case",
-        "checks": {"corr": "check_case", "monitor": "monitor_case"},
-        "kinds": {"corr": "corr", "monitor": "monitor"},
+        "checks": {"corr": "check_case", "monitor": "monitor_case", "monitor_hist": "monitor_hist_case"},
+        "kinds": {"corr": "corr", "monitor": "monitor", "monitor_hist": "monitor"},
         "n_quick": 200,
-        "n_thorough": 4000,
+        "n_thorough": 3000,
+    }, {
+        "name": "app",
+        "harness": "c15app",
+        "header": "From Coq Require Import List String ZArith.\nFrom Exo Require Import Base.Store Base.Util C15.Model.\nImport ListNotations.",
+        "case_type": "acase",
+        "checks": {"corr": "check_acase", "monitor": "monitor_acase"},
+        "kinds": {"corr": "corr", "monitor": "monitor"},
+        "n_quick": 100,
+        "n_thorough": 600,
     }],
-    "rule": ("each case = random epoch configuration (1-4 identifiers from a pool incl. the app's own, durations 1ns..24h, start time zero/"
-             "past/now/future, mid-count genesis entries, occasionally invalid entries) + 3..30 block times (equal, sub-duration, multi-duration, "
-             "exactly on / 1ns around an epoch boundary) run through the real x/epochs keeper with recording hooks; distinct = distinct sha1 of the "
-             "whole case; non-trivial = at least one hook notification was delivered"),
-    "explanation": ("Theorems (Coq) about the executable model of BeginBlocker/AddEpochInfo/MultiEpochHooks for ALL block-time sequences and "
-                    "configurations; the model is tied to the code by running both on the same generated histories (state after every block and "
-                    "every hook call compared), and the property's per-block statement step_ok — proved of the model for all inputs — is "
-                    "evaluated directly on the implementation's observed behaviour."),
+    "rule": ("suite epochs: each case = random epoch configuration (1-4 identifiers from a pool incl. the app's own, durations 1ns..24h, start time "
+             "zero/past/now/future, mid-count genesis entries, started entries whose StartTime is still ahead, entries rejected by genesis, entries that "
+             "fail Validate written straight into the store) + 3..30 block times (equal, sub-duration, multi-duration, exactly on / 1ns around an epoch "
+             "boundary) run through the real x/epochs keeper with one recording hook per app subscriber. suite app: one real ExocoreApp driven through "
+             "EndBlock/Commit/BeginBlock (all five real hooks) with block times crossing the minute/hour/day/week boundaries of the app genesis plus 8 "
+             "extra genesis identifiers; the history is cut into cases of 6-14 consecutive blocks, each starting from the observed state. distinct = "
+             "distinct sha1 of the whole case; non-trivial = at least one hook notification was delivered; the per-(block,identifier) branch of the "
+             "model's tick that each input exercises is counted in input_distribution (branch=...)"),
+    "explanation": ("Theorems (Coq, 12, all closed under the global context) about the executable model of BeginBlocker/AddEpochInfo/MultiEpochHooks "
+                    "for ALL stores with distinct identifiers and ALL block lists: first tick, tick iff t > start+duration (catch-up one per block), "
+                    "start-time law, exact shape / order / exactly-once of the per-identifier hook log with fan-out, independence of identifiers, "
+                    "monotonicity, frozen invalid entries. The model is tied to the code by running both on the same generated histories (state after "
+                    "every block and every hook call compared; on the full app: state + epoch_end/epoch_start ABCI events). The property itself is "
+                    "evaluated on the implementation's observations only: step_ok per block and identifier (proved of the model: "
+                    "C15_tick_meets_statement) and hook_hist_ok per identifier over the whole history (proved of the model: C15_hooks_monitor), plus the "
+                    "subscriber order read by reflection from the app."),
     "trusted_base": KERNEL_TB + [
-        "modelled, not verified: x/epochs/keeper/abci.go BeginBlocker, epoch_infos.go AddEpochInfo/IterateEpochInfos, genesis.go InitGenesis, "
-        "types/genesis.go Validate, types/hooks.go MultiEpochHooks (hand-written Gallina transcription, tied by differential execution)",
+        "modelled, not verified: x/epochs/keeper/abci.go BeginBlocker, epoch_infos.go AddEpochInfo/IterateEpochInfos/setEpochInfoUnchecked, genesis.go "
+        "InitGenesis, types/genesis.go Validate, types/hooks.go MultiEpochHooks (hand-written Gallina transcription, tied by differential execution)",
         "subscriber order read by reflection from app.EpochsKeeper.Hooks() of a real ExocoreApp",
+        "suite app observes notifications through the epoch_end/epoch_start ABCI events of BeginBlock (one per notification), not through the real hooks' effects",
         "not modelled: int64 overflow of CurrentEpoch and of time.Time.Add (durations/times in generated cases stay far below 2^62 ns), protobuf time encoding",
     ],
     "assumptions": [
-        "the hooks themselves (distribution, operator, dogfood, mint, AVS) are replaced by recorders in the bulk histories; their behaviour belongs to C05/C06/C16/C17",
-        "block times are those of the block header; CometBFT guarantees monotonicity",
+        "the hooks themselves (distribution, operator, dogfood, mint, AVS) are replaced by recorders in suite epochs and run for real in suite app; "
+        "their behaviour belongs to C05/C06/C16/C17",
+        "block times are those of the block header; CometBFT guarantees monotonicity; block heights are >= 0",
+        "identifiers in the store are pairwise distinct (the store is keyed by identifier)",
     ],
 }
